@@ -75,6 +75,9 @@ def mk_index(idx):
         return int(idx["i"])
     if k == "slice":
         return slice(int(idx["lo"]), int(idx["hi"]))
+    if k == "sslice":
+        n = lambda v: None if int(v) == -99 else int(v)  # noqa: E731
+        return slice(n(idx["lo"]), n(idx["hi"]), int(idx["step"]))
     if k == "intarr":
         return jnp.asarray([int(v) for v in idx["rows"]])
     if k == "boolarr":
